@@ -59,6 +59,14 @@ def make(mido, sym, delta=0):
         return mido.UnknownMetaMessage(0x0A, data=(0xFF,), time=delta)
     if sym == 'seqspec':
         return MM('sequencer_specific', data=(1, 0xFE), time=delta)
+    if sym.startswith('chx'):
+        # chx<status hex>-<d1>[-<d2>]: a channel message by its raw bytes
+        parts = sym[3:].split('-')
+        return M.from_bytes([int(parts[0], 16)] + [int(x) for x in parts[1:]],
+                            time=delta)
+    if sym.startswith('sysexV'):
+        return M('sysex', data=tuple(int(x) for x in sym[6:].split('-')),
+                 time=delta)
     if sym.startswith('sysexN'):
         n = int(sym[6:])
         return M('sysex', data=tuple((i * 5) & 0x7F for i in range(n)),
